@@ -165,6 +165,7 @@ let () =
     | Some p, "s" :: ns -> p.sched <- List.map int_of_string ns
     | Some p, ["p"; src; first] -> p.pp_src <- src; p.pp_first <- first = "1"
     | Some p, ["o"; v] -> p.permissive <- v = "1"
+    | Some _, ["y"; _] -> ()       (* idle polls of the coordinator: stuttering steps, invisible in the model *)
     | Some _, ["w"; _] -> ()       (* process cwd: the model's base directory is already absolute *)
     | Some _, ["l"; _; _] -> ()    (* symlinks are outside the model (D10) *)
     | Some p, ["E"] -> print_endline (run_proj p); cur := None
